@@ -99,6 +99,8 @@ def check(inp):
             bad("ivar", "reciprocal-variance")
         if not np.allclose(d.cov.value, np.diag(err[pi] ** 2), rtol=1e-12):
             bad("cov", "diagonal-of-variances")
+    if m == 0:
+        return fails        # an empty data set has no earliest time; nothing further is claimed
     want_ref = (55000.0 + inp["tref"]) if inp["tref"] is not None else float(np.min(tt))
     if abs(d._t_ref_bmjd - want_ref) > 1e-9:
         bad("__init__", "t_ref-default-or-given", got=d._t_ref_bmjd, want=want_ref)
